@@ -242,7 +242,7 @@ pub fn examine_program(text: &str, origin: &str, seed: u64, report: &mut Report)
     // ---- structural monitor -------------------------------------------------------------------
     let needed = needed_globals(&src_ir);
     if let Ok(cexec) = CExec::new(&tree, Dialect::Msl) {
-        let emitted_functions = cexec.free_functions();
+        let emitted_functions = cexec.plain_free_functions();
         for (name, id) in &functions {
             let imp = src_ir.function_registry.get_function_implementation(*id).as_ref().unwrap();
             let n = imp.params.len();
@@ -256,7 +256,7 @@ pub fn examine_program(text: &str, origin: &str, seed: u64, report: &mut Report)
             let want = needed.get(&id.0).cloned().unwrap_or_default();
             for f in candidates {
                 let info = cexec.param_info(f);
-                let tagged = info.iter().any(|p| matches!(p.2, CTy::Tag));
+                let tagged = cexec.has_trampoline_tag(f);
                 let user_params = if tagged { n + 1 } else { n };
                 if info.len() < user_params {
                     report.violation("structure:lost-parameter", &format!("emitted {} has fewer parameters than the source function", name), w(name, &[], "", ""));
@@ -275,6 +275,21 @@ pub fn examine_program(text: &str, origin: &str, seed: u64, report: &mut Report)
                         }
                     }
                 }
+                // a global whose name had to be changed by the name generator arrives as <name>_N
+                let have: BTreeSet<String> = have
+                    .into_iter()
+                    .map(|h| {
+                        if want.contains(&h) {
+                            return h;
+                        }
+                        if let Some(pos) = h.rfind('_') {
+                            if h[pos + 1..].chars().all(|c| c.is_ascii_digit()) && pos + 1 < h.len() && want.contains(&h[..pos]) {
+                                return h[..pos].to_string();
+                            }
+                        }
+                        h
+                    })
+                    .collect();
                 if have != want {
                     let missing: Vec<&String> = want.difference(&have).collect();
                     let extra: Vec<&String> = have.difference(&want).collect();
